@@ -262,6 +262,52 @@ func init() {
 			c08Eval(c, c08stats, a, true)
 		}, nil
 	}
+	// hand-assembled, genuinely signed envelopes: the validating evidence decoder and the plain one agree on whether the
+	// envelope is evidence at all (then the validating one adds the verdict of Validate())
+	Scenarios["c08.envelope-forms"] = func() (choice.Scenario, func() any) {
+		k := fixtures.Get("ES256", 1)
+		prot := protHeader("ES256")
+		return func(c *choice.Ctx) {
+			a := *c02Claims()[c.Choose("claims", 2)*3]
+			if c.Choose("claims-valid", 2) == 1 {
+				a.ImplID = bp(pat(31, 1))
+			}
+			pl := mcbor.Encode(wireTree(&a, true))
+			form := c.Choose("payload-form", 7)
+			switch form {
+			case 1:
+				pl = mcbor.Encode(mcbor.B(pl))
+			case 2:
+				pl = mcbor.Encode(mcbor.B(mcbor.Encode(mcbor.B(pl))))
+			case 3:
+				pl = mcbor.Encode(mcbor.Tg(24, mcbor.B(pl)))
+			case 4:
+				pl = mcbor.Encode(mcbor.Tg(24, mcbor.B(mcbor.Encode(mcbor.Tg(24, mcbor.B(pl))))))
+			case 5:
+				pl = append(pl, 0x00)
+			case 6:
+				pl = mcbor.Encode(mcbor.A(wireTree(&a, true)))
+			}
+			tok := envelope(prot, nil, pl, rawSign(k, "ES256", prot, pl))
+			c08stats.State(tok)
+			c08stats.Trans.Add(2)
+			ev1, e1 := psatoken.DecodeEvidenceFromCOSE(append([]byte{}, tok...))
+			ev2, e2 := psatoken.DecodeAndValidateEvidenceFromCOSE(append([]byte{}, tok...))
+			tag := fmt.Sprintf("payload-form-%d", form)
+			if e1 != nil {
+				if e2 == nil {
+					c.Failf("C08:DecodeAndValidateEvidenceFromCOSE:accepts-what-the-plain-decoder-refuses:"+tag, "plain: %v", e1)
+				}
+				return
+			}
+			valid := ev1.Claims != nil && ev1.Claims.Validate() == nil
+			if (e2 == nil) != valid {
+				c.Failf(fmt.Sprintf("C08:DecodeAndValidateEvidenceFromCOSE:verdict:%s:claims-valid=%v", tag, valid), "plain decoder: ok, Validate() of its claims valid=%v; validating decoder: %v", valid, e2)
+			} else if e2 == nil && getterVector(ev1.Claims) != getterVector(ev2.Claims) {
+				c.Failf("C08:DecodeAndValidateEvidenceFromCOSE:differs-from-sibling:"+tag, "claims differ")
+			}
+		}, nil
+	}
 	// a derived profile that re-declares a base claim with a stricter accessor: the gates consult ITS accessors
 	Scenarios["c08.shadowing-profile"] = func() (choice.Scenario, func() any) {
 		return func(c *choice.Ctx) {
@@ -457,6 +503,7 @@ func init() {
 		}
 		exploreChoice(r, "c08.component-changed-after-validation", -1, dl)
 		exploreChoice(r, "c08.shadowing-profile", -1, dl)
+		exploreChoice(r, "c08.envelope-forms", -1, dl)
 		exploreChoice(r, "c08.strict-profile", map[bool]int{false: 2, true: 3}[thorough(r)], dl)
 		exploreChoiceOpts(r, registerAfterPriorCalls("c08.coarse.cheap.p2.b1"), 2, dl, 1)
 		exploreChoiceOpts(r, registerAfterPriorCalls("c08.coarse.cheap.p1.b1"), 2, dl, 1)
